@@ -113,6 +113,13 @@ def shapes(tier, seed):
     for leaf in vocab:
         out.append(dict(cond=["and", leaf, core[1]]))
         out.append(dict(cond=["or", core[0], leaf]))
+    # four leaves: a conjunction of disjunctions and a disjunction of conjunctions (sibling operators under one parent)
+    quads = [(core[0], core[1], core[2], core[3]), (core[4], core[5], core[6], core[7]), (core[1], core[6], core[3], core[0])]
+    for (a_, b_, c_, d_) in quads:
+        out.append(dict(cond=["and", ["or", a_, b_], ["or", c_, d_]]))
+        out.append(dict(cond=["or", ["and", a_, b_], ["and", c_, d_]]))
+        out.append(dict(cond=["not", ["or", ["and", a_, b_], ["and", c_, d_]]]))
+        out.append(dict(cond=["and", ["or", a_, b_], ["or", c_, d_]], spelling="multi"))
     rnd = random.Random(seed)
     if tier == "quick":
         # covering sample of L = 3
